@@ -1263,7 +1263,6 @@ spec fn isInlInt(v Value) bool = v.flag == SMALL_INT_FLAG || v.flag == INT64_FLA
 // every right operand the headers admit (Std::AnyInt: Int of either representation and the
 // nine sized kinds); a big Int operand is canonical (C06): it does not fit a machine word
 spec fn isAnyInt(v Value) bool = wfv(v) && (isInlInt(v) || (isBig(v) && !fitsSmall(bigval(v.ptr))))
-spec rec fn ipow(b int, e int) int = ite(e <= 0, 1, b * ipow(b, e - 1))
 
 // the generic helpers behind <<, >>, <<<, >>> for a fixed-width left operand: a negative count
 // shifts the other way; a count of any size is accepted
